@@ -30,5 +30,15 @@ Definition masum (l : list (option bool)) : numT Ops :=
   if existsb is_some l then n_ofnat Ops (length (filter is_some_true l))
   else match l with [] => n_ofnat Ops 0 | _ => n_nan Ops end.
 
+(* np.mean over masked booleans: mean of the unmasked entries; masked (= NaN) when there is none *)
+Definition mamean (l : list (option bool)) : numT Ops :=
+  let valid := filter is_some l in
+  n_div Ops (n_ofnat Ops (length (filter is_some_true valid))) (n_ofnat Ops (length valid)).
+
+(* v[I] for a boolean position mask *)
+Definition vselect (mask : list bool) (v : list (numT Ops)) : list (numT Ops) :=
+  map snd (filter (fun p => fst p) (combine mask v)).
+
 End E.
+Arguments vselect {Ops}.
 Arguments iv_lower {Ops}. Arguments iv_upper {Ops}. Arguments iv_lower_eq {Ops}. Arguments iv_upper_eq {Ops}.
